@@ -35,7 +35,7 @@ STUB = ["choice of the running scenario thread (baton scheduler, line events in 
 ASSUMPTIONS = ["population changes in the two round hooks, plus deletions from inside act of the acting agent itself or of an agent created before it (both have already acted), and creations from inside act: the newcomer is a live agent and is expected to handle and act last in that very step, as the pinned tree does",
                "harness subclasses (models/abm_agents.py) run atomically between pre-emption points"]
 FAULT_KINDS = ["preemption", "population_change_in_hook", "agent_deleted_inside_act"]
-PROBES = ["model_run_again_with_other_run_spec", "deletion_inside_act", "creation_inside_act", "zero_stop_time", "negative_start", "decimal_dt", "empty_population", "collect_off", "threads_interleaved", "driven_steps"]
+PROBES = ["progress_widget", "model_run_again_with_other_run_spec", "deletion_inside_act", "creation_inside_act", "zero_stop_time", "negative_start", "decimal_dt", "empty_population", "collect_off", "threads_interleaved", "driven_steps"]
 EXHAUSTIVE = {"quick": False, "thorough": False}
 
 
@@ -43,6 +43,21 @@ def plan(tier, verif_seed):
     n = 2400 if tier == "quick" else 10**9
     for i in range(n):
         yield {"i": i, "seed": derive_seed(verif_seed, PROPERTY, i), "keep_sample": i < 1}
+
+
+class _quiet:
+    """the progress widget display()s itself: keep that off the check's output"""
+
+    def __enter__(self):
+        import io
+        import sys
+        self._old = sys.stdout
+        sys.stdout = io.StringIO()
+
+    def __exit__(self, *a):
+        import sys
+        sys.stdout = self._old
+        return False
 
 
 def generate(spec):
@@ -68,7 +83,9 @@ def generate(spec):
             d2 = rng.choice([d for d in W.DTS if d != scs[0]["dt"]])
             s2 = rng.choice([0, 1, 2])
             scs[0]["second"] = {"start": s2, "stop": s2 + rng.choice([0, 1, 2]), "dt": d2, "collect": rng.random() < 0.5}
-    return {"property": PROPERTY, "mode": mode, "collect": collect, "scenarios": scs, "sched": sched}
+    # with the progress widget (Model.run(show_progress_widget=True) / run_scenarios(progress_bar=True)) a run is the same run
+    widget = mode in ("run", "run_twice", "bptk_threads") and rng.random() < 0.3
+    return {"property": PROPERTY, "mode": mode, "collect": collect, "scenarios": scs, "sched": sched, "widget": widget}
 
 
 def _cmp(res, name, got, exp, extra):
@@ -89,6 +106,9 @@ def execute(case):
     res = RunResult()
     mode = case["mode"]
     collect = case["collect"]
+    widget = bool(case.get("widget"))
+    if widget:
+        res.probe("progress_widget")
     scs = case["scenarios"]
     for sc in scs:
         if sc["stop"] == 0:
@@ -115,7 +135,8 @@ def execute(case):
         spr = round(1 / sc["dt"])
         try:
             if mode == "run":
-                m.run(collect_data=collect)
+                with _quiet():
+                    m.run(show_progress_widget=widget, collect_data=collect)
                 exp = W.expected_calls(sc, collect)
             elif mode == "run_twice":
                 res.probe("model_run_again_with_other_run_spec")
@@ -129,7 +150,8 @@ def execute(case):
                     m.world.calls = []
                     m.run_specs(s2["start"], s2["stop"], s2["dt"])
                     collect = s2.get("collect", collect)       # the second run may switch data collection on or off
-                    m.run(collect_data=collect)
+                    with _quiet():
+                        m.run(show_progress_widget=widget, collect_data=collect)
                     sc = {**sc, "start": s2["start"], "stop": s2["stop"], "dt": s2["dt"]}
                     exp = W.expected_calls(sc, collect, sh=sh1, k0=k1, with_hooks=False)
                     spr = round(1 / sc["dt"])
@@ -167,8 +189,9 @@ def execute(case):
         with patches.installed(threads="sched", global_thread=True):
             with sched:
                 try:
-                    out = b.run_scenarios(scenarios=names, scenario_managers=["smAbm"], agents=["a", "b"], agent_states=["idle"],
-                                          series_names={}, return_format="dict")
+                    with _quiet():
+                        out = b.run_scenarios(scenarios=names, scenario_managers=["smAbm"], agents=["a", "b"], agent_states=["idle"],
+                                              series_names={}, return_format="dict", progress_bar=widget)
                 except Deadlock:
                     res.violate("C12.deadlock", {})
                 except Exception as e:
